@@ -14,6 +14,7 @@ Helper lemmas: `Proof/TokenLemmas.lean`, `Proof/Parse*Lemmas.lean` (progress),
 import WuffsVerif.Proof.TokenLemmas
 import WuffsVerif.Proof.ParseTopLemmas
 import WuffsVerif.Proof.ParseWfTop
+import WuffsVerif.Proof.ParseHeightTop
 
 namespace WuffsVerif.Props.C11
 open WuffsVerif.Token WuffsVerif.Gen.C11
@@ -267,6 +268,33 @@ theorem parse_postfix_chain_bounded (env : Env) (pe : P Node) (id : Nat) :
   have h := post_operandAll_spine env pe (newExpr 0 0 id .nil .nil .nil [])
   exact post_mono h (fun n hn => by
     simpa [spine, newExpr, KExpr, IDOpenParen, IDOpenBracket, IDDotDot, IDDot] using hn)
+
+open WuffsVerif.Parse in
+/-- **parse_height_bounded.**  Every AST that the model of `parse.Parse` returns, for every
+token list and option set, is at most `260 * (256 + 64 + 256) + 4 = 149 764` nodes high
+(`Parse.height`: nodes on the longest root-to-leaf path, through `lhs/mhs/rhs` and the three
+child lists).  So every recursive pass over the parser's output — `ast.Node.Walk`, `Expr.Str`,
+lang/check, internal/cgen — recurses to a depth that is bounded by a constant, whatever the
+input: the model-level statement of "no stack overflow after parsing" (both C11 parser repairs
+are needed for it: the recursion guards bound the number of `parseExpr` / `parseTypeExpr` /
+`parseBlock` passes on a path, the chain guard bounds what is stacked between two of them). -/
+theorem parse_height_bounded (env : Env) (toks : List Tok) (file : Node)
+    (h : parseFile env toks = .ok file) : height file ≤ 149764 :=
+  parseFile_height env toks file h
+
+open WuffsVerif.Parse in
+/-- The per-function bounds behind it, at every depth budget (`s = e + t + b`): expressions,
+type expressions ≤ `260 s`, operands ≤ `260 s + 257`, blocks ≤ `260 s`, statements ≤ `260 s + 5`,
+declarations ≤ `260 s + 3`. -/
+theorem parse_height_bounded_parts (env : Env) (e t b : Nat) :
+    CoreH env e t b ∧ StmtH env e t b ∧
+      Post (parseTopLevelDecl env e t b) (fun n => height n ≤ LINK * (e + t + b) + 3) :=
+  ⟨core_h env _ e t b rfl, stmt_h env e t b, hpost_parseTopLevelDecl env e t b⟩
+
+open WuffsVerif.Parse in
+/-- non-vacuity: `height` of `a.b[c]` is 3 (index node, selector node, leaf). -/
+example : height (newExpr 0 IDOpenBracket 0 (newExpr 0 IDDot 1025 (newExpr 0 0 1024 .nil .nil .nil [])
+    .nil .nil []) .nil (newExpr 0 0 1026 .nil .nil .nil []) []) = 3 := by decide
 
 open WuffsVerif.Parse in
 /-- non-vacuity: `spine` counts the links of `a.b[c]`. -/
